@@ -3,14 +3,18 @@
 (* every configuration of the chosen set).                                  *)
 EXTENDS Capacity
 
-C(kind, cap, qmax, maxamt) == [kind |-> kind, cap |-> cap, qmax |-> qmax, maxamt |-> maxamt]
+C(kind, cap, qmax, maxamt, maxhold) ==
+    [kind |-> kind, cap |-> cap, qmax |-> qmax, maxamt |-> maxamt, maxhold |-> maxhold]
 
-MCQuick == { C("fifo", 1, 0, 1), C("fifo", 2, 0, 2), C("rwlock", 3, 0, 1), C("rwlock", 2, 0, 1),
-             C("bulkhead", 1, 1, 1), C("try", 2, 0, 2) }
-MCMore == { C("fifo", 3, 0, 3), C("bulkhead", 2, 1, 1), C("bulkhead", 1, 0, 1), C("bulkhead", 1, 2, 1),
-            C("try", 3, 0, 3), C("rwlock", 1, 0, 1) }
-MCWide == { C("fifo", 2, 0, 2), C("rwlock", 2, 0, 1), C("bulkhead", 1, 1, 1) }
-MCFour == { C("fifo", 2, 0, 2), C("rwlock", 4, 0, 1), C("rwlock", 2, 0, 1), C("bulkhead", 2, 1, 1) }
-MCSens == { C("fifo", 2, 0, 2) }
-MCLive == { C("fifo", 1, 0, 1), C("bulkhead", 1, 1, 1) }
+\* quick tier: hold times {0,1,2} for the richest configuration, {0,1} for the others
+MCQuick == { C("fifo", 1, 0, 1, 1), C("fifo", 2, 0, 2, 2), C("rwlock", 3, 0, 1, 1), C("rwlock", 2, 0, 1, 1),
+             C("bulkhead", 1, 1, 1, 1), C("try", 2, 0, 2, 1) }
+MCFull == { C("fifo", 1, 0, 1, 2), C("fifo", 2, 0, 2, 2), C("rwlock", 3, 0, 1, 2), C("rwlock", 2, 0, 1, 2),
+            C("bulkhead", 1, 1, 1, 2), C("try", 2, 0, 2, 2) }
+MCMore == { C("fifo", 3, 0, 3, 2), C("bulkhead", 2, 1, 1, 2), C("bulkhead", 1, 0, 1, 2), C("bulkhead", 1, 2, 1, 2),
+            C("try", 3, 0, 3, 2), C("rwlock", 1, 0, 1, 2) }
+MCWide == { C("fifo", 2, 0, 2, 3), C("rwlock", 2, 0, 1, 3), C("bulkhead", 1, 1, 1, 3) }
+MCFour == { C("fifo", 2, 0, 2, 1), C("rwlock", 2, 0, 1, 1), C("bulkhead", 2, 1, 1, 1) }
+MCSens == { C("fifo", 2, 0, 2, 1) }
+MCLive == { C("fifo", 1, 0, 1, 2), C("bulkhead", 1, 1, 1, 2), C("fifo", 2, 0, 1, 1) }
 ===========================================================================
